@@ -443,6 +443,8 @@ class Session:
         logging.info("")
         logging.info(f"Record Type: {record.record_type}")
         logging.info(f"Binary: {record.raw.hex()}")
+        if len(record.binary) == 0 and record.record_type != 0x17:
+            return  # empty handshake / alert / change-cipher-spec record: there is no first byte to dispatch on
         match record.record_type:
             # Handshake Record
             case 0x16:
